@@ -69,6 +69,13 @@ pub fn run_case(case: &Case, timeout: Duration) -> Option<Ctx> {
 
 /// same, with explicit RandomState keys for the run's thread (seam N2)
 pub fn run_case_seeded(case: &Case, hash_seed: u64, timeout: Duration) -> Option<Ctx> {
+    run_case_in(case, hash_seed, None, timeout)
+}
+
+/// same, optionally with the whole run executing inside a private rayon pool of `pool` threads (every worker
+/// thread gets the run's hash seed): whatever the library parallelises internally then splits and steals
+/// according to that pool size. `None` = plain thread (library code that uses rayon falls into the global pool).
+pub fn run_case_in(case: &Case, hash_seed: u64, pool: Option<usize>, timeout: Duration) -> Option<Ctx> {
     let (tx, rx) = std::sync::mpsc::channel();
     let case2 = case.clone();
     let h = std::thread::Builder::new()
@@ -78,9 +85,26 @@ pub fn run_case_seeded(case: &Case, hash_seed: u64, timeout: Duration) -> Option
             let mut case2 = case2;
             cases::rehash(&mut case2);
             let mut ctx = Ctx::default();
-            let r = catch_unwind(AssertUnwindSafe(|| cases::execute(&case2, &mut ctx)));
-            if r.is_err() {
-                let (loc, msg) = LAST_PANIC.with(|p| p.borrow_mut().take()).unwrap_or(("?".into(), "?".into()));
+            let r = match pool {
+                None => catch_unwind(AssertUnwindSafe(|| cases::execute(&case2, &mut ctx))).map_err(|_| LAST_PANIC.with(|p| p.borrow_mut().take())),
+                Some(n) => {
+                    let built = rayon::ThreadPoolBuilder::new().num_threads(n.max(1)).stack_size(32 << 20).start_handler(move |_| hashseed::set_thread_seed(hash_seed)).build();
+                    match built {
+                        Ok(tp) => {
+                            let ctx_ref = &mut ctx;
+                            let case_ref = &case2;
+                            // the panic record lives in the thread-local of the pool thread that ran the body: fetch it there
+                            tp.install(move || catch_unwind(AssertUnwindSafe(|| cases::execute(case_ref, ctx_ref))).map_err(|_| LAST_PANIC.with(|p| p.borrow_mut().take())))
+                        }
+                        Err(_) => {
+                            ctx.hit("stat.pool_build_failed");
+                            Ok(())
+                        }
+                    }
+                }
+            };
+            if let Err(rec) = r {
+                let (loc, msg) = rec.unwrap_or(("?".into(), "?".into()));
                 let short: String = msg.lines().next().unwrap_or("").chars().take(200).collect();
                 let loc_short = loc.rsplit("altrios-core/").next().unwrap_or(&loc).to_string();
                 match cases::panic_property(&case2, ctx.layer, &loc) {
